@@ -1634,3 +1634,60 @@ pub fn f_req(n: usize, thorough: bool) -> Vec<Case> {
     }
     v
 }
+
+// ------------------------------------------------------------------------------------------------------------
+// F-WS: renderings of one token sequence (line endings, indentation, spacing, end of file)
+// ------------------------------------------------------------------------------------------------------------
+
+pub fn ws_variants(base: &Case, thorough: bool) -> Vec<Case> {
+    let mut v = Vec::new();
+    let t = &base.text;
+    let mk = |text: String| Case { text, fam: "F-WS", dial: base.dial, meta: Meta { comments: base.meta.comments, ..Meta::default() } };
+    // whole file CRLF
+    v.push(mk(t.replace("\r\n", "\n").replace('\n', "\r\n")));
+    // mixed: every second line break is CRLF
+    let mut mixed = String::new();
+    let mut k = 0;
+    for ch in t.replace("\r\n", "\n").chars() {
+        if ch == '\n' {
+            if k % 2 == 0 {
+                mixed.push('\r');
+            }
+            k += 1;
+        }
+        mixed.push(ch);
+    }
+    if k >= 2 {
+        v.push(mk(mixed));
+    }
+    // indentation with spaces instead of tabs, and mixed
+    if t.contains('\t') {
+        v.push(mk(t.replace('\t', "   ")));
+        if thorough {
+            v.push(mk(t.replace('\t', " \t")));
+        }
+    }
+    // doubled spaces between tokens, and a leading indentation on every line
+    if thorough {
+        v.push(mk(t.replace(' ', "  ")));
+    }
+    v.push(mk(t.lines().map(|l| format!("  {}\n", l)).collect::<String>()));
+    // end of file variants
+    let trimmed = t.trim_end_matches(|c| c == '\n' || c == '\r');
+    v.push(mk(trimmed.to_string()));
+    v.push(mk(format!("{}\n\n\n", trimmed)));
+    v.push(mk(format!("{}\n  \n\t\n", trimmed)));
+    v.push(mk(format!("{}\r\n\r\n", trimmed)));
+    v.push(mk(format!("{}\n-- last\n\n\n", trimmed)));
+    v.push(mk(format!("{} -- last", trimmed)));
+    v.push(mk(format!("{}\n--[[ last\nline ]]\n\n", trimmed)));
+    v
+}
+
+pub fn f_ws_files() -> Vec<Case> {
+    // files without any code
+    ["", "\n", "\n\n\n", "  \n", "\r\n", "-- c", "-- c\n\n\n", "--[[c\nd]]\n", "#!/bin/lua\n", "\t\n-- c\r\n\r\n"]
+        .iter()
+        .map(|s| case("F-WS", Dial::Core, *s))
+        .collect()
+}
